@@ -116,7 +116,7 @@ def _mode1_inv(ctx):
     ]
 
 
-MODE1 = LoopSpec(_mode1_inv, havoc_heap=_mk_havoc("algos"), on_iter=_on_iter("algos"), elem_cls="Algo", name="stack without run_always algos")
+MODE1 = LoopSpec(_mode1_inv, havoc_heap=_mk_havoc("algos"), on_iter=_on_iter("algos"), elem_cls="Algo", name="stack without run_always algos", lacks=["run_always"])
 
 
 def _ff(ctx):
@@ -157,7 +157,7 @@ def _mode2_inv(ctx):
     ]
 
 
-MODE2 = LoopSpec(_mode2_inv, havoc_heap=_mk_havoc("algos"), on_iter=_on_iter("algos"), elem_cls="Algo", name="stack with run_always algos")
+MODE2 = LoopSpec(_mode2_inv, havoc_heap=_mk_havoc("algos"), on_iter=_on_iter("algos"), elem_cls="Algo", name="stack with run_always algos", mentions=["run_always"])
 
 
 def _w(ctx):
